@@ -50,13 +50,14 @@ type Prog struct {
 	Fns    []*ssa.Function
 	byName map[string]*ssa.Function
 	// closures[f] = anonymous functions created (transitively) inside f, in source order
-	callers   map[*ssa.Function][]callSite // static call sites per module callee
-	nCalls    int
-	canonEnv  env // parameter substitution in effect while canonE runs
-	factMemo  map[*ssa.Function][]branchFact
-	RoleNotes []string
-	opaque    map[*ssa.Function]bool // domain anchors: never expanded into facts when called
-	roleOf    map[*ssa.Function]string
+	callers      map[*ssa.Function][]callSite // static call sites per module callee
+	nCalls       int
+	canonEnv     env // parameter substitution in effect while canonE runs
+	factMemo     map[*ssa.Function][]branchFact
+	RoleNotes    []string
+	knownMethods map[string]bool
+	opaque       map[*ssa.Function]bool // domain anchors: never expanded into facts when called
+	roleOf       map[*ssa.Function]string
 	// boundRecv: receiver parameter of a module method that is only ever used as one bound method value
 	// (withLock(..., claim.commit)) -> the value it is bound to at that site
 	boundRecv   map[*ssa.Parameter]ssa.Value
@@ -237,8 +238,8 @@ func (p *Prog) Name(f *ssa.Function) string {
 	}
 	s := f.String()
 	if role, ok := p.roleOf[Outermost(f)]; ok {
-		// renamed function resolved by fingerprint: keys keep the recorded role name
-		s = strings.Replace(s, ergoPath+"."+Outermost(f).Name(), ergoPath+"."+role, 1)
+		// renamed function (or function turned method) resolved by fingerprint: keys keep the recorded role name
+		s = ergoPath + "." + role + strings.TrimPrefix(s, Outermost(f).String())
 	}
 	s = strings.ReplaceAll(s, ergoPath+".", "ergo.")
 	s = strings.ReplaceAll(s, mainPath+".", "main.")
